@@ -165,8 +165,14 @@ func (ie *ImageExtractor) findRealFigureImage(figure *html.Node) *html.Node {
 		}
 
 		// If image is not found inside noscript, we check the one that directly inside figure.
+		// A hidden image (a loading spinner, a placeholder) is not the image of the figure.
 		if image == nil {
-			image = dom.QuerySelector(figure, imageTagName)
+			for _, candidate := range dom.QuerySelectorAll(figure, imageTagName) {
+				if domutil.IsProbablyVisible(candidate) && ie.isVisibleInside(candidate, figure) {
+					image = candidate
+					break
+				}
+			}
 		}
 
 		if image != nil {
